@@ -30,6 +30,12 @@ func runC14(c *Ctx) {
 	ruleMonotone(c)
 	ruleShutdown(c)
 	ruleDNS(c)
+	// "shutting the packet listener down expires all associations promptly": the datagram loop of a released handle must
+	// come back from its read, which a reader that has already accepted its request prevents
+	for _, m := range findMultiListeners(c, "HANDOFF") {
+		ruleCancelPump(c, m, "HANDOFF")
+		ruleClosedGuard(c, m)
+	}
 }
 
 func assocGoroutines(c *Ctx) []*ssa.Function {
